@@ -8,6 +8,10 @@ from lomond.session import WebsocketSession
 
 
 def replay(obligation, extra):
+    from replay import pongrace
+    r = pongrace.check()
+    if r:
+        return r
     tried = 0
     many = b''.join(ref.server_frame(1, ('m%d' % i).encode()) for i in range(300)) + ref.server_frame(9, b'tail-ping')
     big = ref.server_frame(2, bytes(range(256)) * 300) + ref.server_frame(1, b'after-big') + ref.server_frame(9, b'tail-ping')
